@@ -162,6 +162,7 @@ fn cfg_strategy_inner(p: Profile, thorough: bool) -> BoxedStrategy<Cfg> {
                 c.connect_all = b3;
                 c.big = b1;
                 c.refs = b2;
+                c.children = b1 && b3;
                 prop_oneof![Just(1u8), Just(2u8)].prop_map(move |v| Cfg { vis: v, ..c.clone() }).boxed()
             }
             Profile::Faults => {
